@@ -92,6 +92,10 @@ def make_files(d, thorough):
     c = os.path.join(d, "tab.csv")
     write_csv(c, ["x", "y", "n"], [[0.5, 1.25, 2.5], [3.0, 4.5, 10.0], [1, 22, 333]])
     out.append(("csv", c, []))
+    # signs and exponents: a cut inside the last number can leave a token that is no number at all ("-", "-1.75e", "2.5e+")
+    c2 = os.path.join(d, "tab2.csv")
+    write_csv(c2, ["t", "u", "w"], [[-0.5, 0.25, 1.0], [1e-07, -3.5, 2e+20], [-1.75e-05, 6.02e+23, -2.5e-300]])
+    out.append(("csv", c2, []))
     return out
 
 
